@@ -1,3 +1,180 @@
-/-! Property C11 — theorems (statements live here, helper lemmas in Faithful/Lib) -/
+import Faithful.Lib.LedgerProofs
+/-! Property C11 — the hand-written IPLD node decoders agree with the schema-driven reference decoder.
+
+All statements are about the definitions the driver executes (`Ledger.Fast.decode`, `Ledger.Ref.decode`,
+`Ledger.Ref.encode`, `Ledger.obs` of Faithful/Lib/Ledger.lean), for ALL typed values of the seven kinds that satisfy the
+schema's own constraints (`Node.WF`: the kind field carries the kind, Go ints are int64, links are CIDs) — no bound on
+list lengths, byte-string lengths or integer magnitudes.  bytes ⇄ CBOR tree is third-party code on both paths and is
+outside these statements (compared on every op line of the correspondence run). -/
 namespace C11
+open Ledger Cbor
+
+/-- **agreement**: a schema-conforming node, encoded by the reference encoder, is accepted by the hand-written decoder
+    (never an error, never a panic) and by the schema-driven decoder, and both results carry the observation of the
+    original typed value: same kind, field values, optional-field presence (`Has*/Get*`) and links. -/
+theorem fast_agrees (n : Node) (wf : n.WF) :
+    (∃ n', Fast.decode n.kind (Ref.encode n) = .ok n' ∧ obs n' = obs n) ∧
+    (∃ n'', Ref.decode n.kind (Ref.encode n) = .ok n'' ∧ obs n'' = obs n) := by
+  cases n with
+  | transaction x =>
+    exact ⟨⟨_, fast_transaction x wf, by simp [obs, obs_fast_normDF]⟩, ⟨_, ref_transaction x wf, by simp [obs, obs_ref_normDF]⟩⟩
+  | entry x => exact ⟨⟨_, fast_entry x wf, rfl⟩, ⟨_, ref_entry x wf, rfl⟩⟩
+  | block x => exact ⟨⟨_, fast_block x wf, by simp [obs, Fast.normBlock]⟩, ⟨_, ref_block x wf, rfl⟩⟩
+  | subset x => exact ⟨⟨_, fast_subset x wf, rfl⟩, ⟨_, ref_subset x wf, rfl⟩⟩
+  | epoch x => exact ⟨⟨_, fast_epoch x wf, rfl⟩, ⟨_, ref_epoch x wf, rfl⟩⟩
+  | rewards x =>
+    exact ⟨⟨_, fast_rewards x wf, by simp [obs, obs_fast_normDF]⟩, ⟨_, ref_rewards x wf, by simp [obs, obs_ref_normDF]⟩⟩
+  | dataFrame x =>
+    exact ⟨⟨_, fast_dataFrame x wf, by simp [obs, obs_fast_normDF]⟩, ⟨_, ref_dataFrame x wf, by simp [obs, obs_ref_normDF]⟩⟩
+
+/-- the two decoders agree with each other (the form the harness oracle checks) -/
+theorem fast_eq_classic (n : Node) (wf : n.WF) :
+    ∃ f c, Fast.decode n.kind (Ref.encode n) = .ok f ∧ Ref.decode n.kind (Ref.encode n) = .ok c ∧ obs f = obs c := by
+  obtain ⟨⟨f, hf, hof⟩, ⟨c, hc, hoc⟩⟩ := fast_agrees n wf
+  exact ⟨f, c, hf, hc, hof.trans hoc.symm⟩
+
+/-! ### a node of one kind is never accepted as another kind -/
+
+theorem dropTrailing_head (a : Val) (xs : List (Option Val)) :
+    ∃ t, Ref.dropTrailingAbsent (some a :: xs) = some a :: t := by
+  simp only [Ref.dropTrailingAbsent]
+  split
+  · exact ⟨[], rfl⟩
+  · exact ⟨_, rfl⟩
+
+theorem tupleItems_head (a : Val) (xs : List (Option Val)) : ∃ t, Ref.tupleItems' (some a :: xs) = a :: t := by
+  obtain ⟨t, ht⟩ := dropTrailing_head a xs
+  exact ⟨t.map Ref.fill, by simp [Ref.tupleItems', ht]⟩
+
+/-- every encoded node is an array that starts with its kind number -/
+theorem encode_head (n : Node) (wf : n.WF) : ∃ t, Ref.encode n = .arr (Ref.encInt n.kind.num :: t) := by
+  cases n with
+  | transaction x => obtain ⟨hk, _⟩ := wf; simp only [Ref.encode, Ref.tuple, Node.kind, Kind.num, hk]; obtain ⟨t, ht⟩ := tupleItems_head (Ref.encInt 0) _; exact ⟨t, by rw [ht]⟩
+  | entry x => obtain ⟨hk, _⟩ := wf; simp only [Ref.encode, Ref.tuple, Node.kind, Kind.num, hk]; obtain ⟨t, ht⟩ := tupleItems_head (Ref.encInt 1) _; exact ⟨t, by rw [ht]⟩
+  | block x => obtain ⟨hk, _⟩ := wf; simp only [Ref.encode, Ref.tuple, Node.kind, Kind.num, hk]; obtain ⟨t, ht⟩ := tupleItems_head (Ref.encInt 2) _; exact ⟨t, by rw [ht]⟩
+  | subset x => obtain ⟨hk, _⟩ := wf; simp only [Ref.encode, Ref.tuple, Node.kind, Kind.num, hk]; obtain ⟨t, ht⟩ := tupleItems_head (Ref.encInt 3) _; exact ⟨t, by rw [ht]⟩
+  | epoch x => obtain ⟨hk, _⟩ := wf; simp only [Ref.encode, Ref.tuple, Node.kind, Kind.num, hk]; obtain ⟨t, ht⟩ := tupleItems_head (Ref.encInt 4) _; exact ⟨t, by rw [ht]⟩
+  | rewards x => obtain ⟨hk, _⟩ := wf; simp only [Ref.encode, Ref.tuple, Node.kind, Kind.num, hk]; obtain ⟨t, ht⟩ := tupleItems_head (Ref.encInt 5) _; exact ⟨t, by rw [ht]⟩
+  | dataFrame x => obtain ⟨hk, _⟩ := wf; simp only [Ref.encode, Ref.encDataFrame, Ref.dfItems, Node.kind, Kind.num, hk]; obtain ⟨t, ht⟩ := tupleItems_head (Ref.encInt 6) _; exact ⟨t, by rw [ht]⟩
+
+theorem kindNum_I64 (k : Kind) : I64 k.num := by cases k <;> decide
+
+theorem kindNum_inj (a b : Kind) (h : a.num = b.num) : a = b := by
+  cases a <;> cases b <;> first | rfl | (exact absurd h (by decide))
+
+theorem readKind_mismatch (have_ want : Int) (h : I64 have_) (hne : have_ ≠ want) (t : List Val) :
+    ∃ e, Fast.readKind (Ref.encInt have_ :: t) want = .err e := by
+  simp [Fast.readKind, Fast.get, getUint64_encInt have_ h, castI64_castU64 have_ h, hne]
+
+/-- **kind exclusivity**: offered to the decoder of any other kind, the encoding of a schema-conforming node is rejected
+    with an error — never accepted, never a panic. -/
+theorem kind_exclusive (n : Node) (wf : n.WF) (k : Kind) (hk : k ≠ n.kind) :
+    ∃ e, Fast.decode k (Ref.encode n) = .err e := by
+  obtain ⟨t, ht⟩ := encode_head n wf
+  have hne : n.kind.num ≠ k.num := fun h => hk (kindNum_inj _ _ h).symm
+  rw [ht]
+  cases k with
+  | transaction => obtain ⟨e, he⟩ := readKind_mismatch _ 0 (kindNum_I64 _) hne t; exact ⟨e, by simp [Fast.decode, Fast.unmarshalTransaction, Fast.topArray, he]⟩
+  | entry => obtain ⟨e, he⟩ := readKind_mismatch _ 1 (kindNum_I64 _) hne t; exact ⟨e, by simp [Fast.decode, Fast.unmarshalEntry, Fast.topArray, he]⟩
+  | block => obtain ⟨e, he⟩ := readKind_mismatch _ 2 (kindNum_I64 _) hne t; exact ⟨e, by simp [Fast.decode, Fast.unmarshalBlock, Fast.topArray, he]⟩
+  | subset => obtain ⟨e, he⟩ := readKind_mismatch _ 3 (kindNum_I64 _) hne t; exact ⟨e, by simp [Fast.decode, Fast.unmarshalSubset, Fast.topArray, he]⟩
+  | epoch => obtain ⟨e, he⟩ := readKind_mismatch _ 4 (kindNum_I64 _) hne t; exact ⟨e, by simp [Fast.decode, Fast.unmarshalEpoch, Fast.topArray, he]⟩
+  | rewards => obtain ⟨e, he⟩ := readKind_mismatch _ 5 (kindNum_I64 _) hne t; exact ⟨e, by simp [Fast.decode, Fast.unmarshalRewards, Fast.topArray, he]⟩
+  | dataFrame => obtain ⟨e, he⟩ := readKind_mismatch _ 6 (kindNum_I64 _) hne t; exact ⟨e, by simp [Fast.decode, Fast.unmarshalDataFrame, Fast.dataFrameFromArray, Fast.topArray, he]⟩
+
+/-! ### integer sign handling through the casts of cbor.go -/
+
+/-- every Go `int` (negative, zero, MinInt64, MaxInt64) survives `encode → i.(uint64)/i.(int64) → uint64(·) → int(·)`
+    and the schema-driven path unchanged -/
+theorem int_sign (v : Int) (h : I64 v) :
+    (∃ u, Fast.getUint64 (Ref.encInt v) = .ok u ∧ castI64 u = v) ∧ Ref.decInt (Ref.encInt v) = .ok v :=
+  ⟨⟨_, getUint64_encInt v h, castI64_castU64 v h⟩, decInt_encInt v h⟩
+
+/-- a uint64 (a CRC64 hash, a block height) stored in a Go `int`: values from 2^63 up are negative as `int`, are written
+    by the reference encoder as negative CBOR integers, come back through both decoders as the same `int`, and the
+    accessors `GetHash` / `GetBlockHeight` (`uint64(**p)`) return the original uint64 -/
+theorem int_sign_uint64 (u : Nat) (h : u < 18446744073709551616) :
+    I64 (castI64 u) ∧ (9223372036854775808 ≤ u → castI64 u < 0) ∧
+    (∃ w, Fast.getUint64 (Ref.encInt (castI64 u)) = .ok w ∧ castI64 w = castI64 u) ∧
+    Ref.decInt (Ref.encInt (castI64 u)) = .ok (castI64 u) ∧
+    obsOptU64 (some (some (castI64 u))) = some u := by
+  refine ⟨castI64_I64 u, ?_, (int_sign _ (castI64_I64 u)).1, (int_sign _ (castI64_I64 u)).2, ?_⟩
+  · intro h2; unfold castI64; split <;> omega
+  · simp [obsOptU64, castU64_castI64 u h]
+
+/-- a CBOR unsigned integer above MaxInt64 (never produced by the reference encoder, but by other writers): both
+    decoders wrap it to the same negative `int` -/
+theorem int_sign_large_uint (u : Nat) :
+    (do let w ← Fast.getUint64 (.uint u); Outcome.ok (castI64 w)) = Outcome.ok (castI64 u) ∧
+    Ref.decInt (.uint u) = .ok (castI64 u) := by
+  constructor
+  · simp [Fast.getUint64]
+  · simp [Ref.decInt, Ref.untag]
+
+/-- the casts are Go's fixed-width two's-complement conversions (stated with Lean's own `UInt64`/`Int64`) -/
+theorem castI64_eq_toInt64 (u : Nat) : castI64 u = (UInt64.ofNat u).toInt64.toInt := by
+  have hc : (Int64.toBitVec ⟨UInt64.ofNat u⟩).toNat = u % 18446744073709551616 := by
+    show (UInt64.ofNat u).toBitVec.toNat = _
+    simp [UInt64.toBitVec_ofNat']
+  unfold castI64
+  rw [UInt64.toInt64, Int64.toInt]
+  simp only [BitVec.toInt_eq_toNat_cond, hc]
+  split <;> split <;> omega
+
+theorem castU64_eq_toUInt64 (v : Int) : castU64 v = (Int64.ofInt v).toUInt64.toNat := by
+  unfold castU64
+  simp [Int64.ofInt, UInt64.toNat, BitVec.toNat_ofInt]
+
+/-! ### non-vacuity: the hypotheses are satisfiable, the conclusions are not trivial -/
+
+/-- CIDv1 / raw / identity multihash of the empty digest -/
+def cidA : Cid := [0x01, 0x55, 0x00, 0x00]
+/-- CIDv1 / dag-cbor / sha2-256, the shape the CAR writers produce -/
+def cidB : Cid := [0x01, 0x71, 0x12, 0x20,
+  0xc7, 0x17, 0xfd, 0xdb, 0x1b, 0x84, 0xd2, 0xc5, 0x2b, 0x9e, 0xf9, 0xfe, 0x29, 0x92, 0x4b, 0x04,
+  0x4d, 0x7f, 0x67, 0xaa, 0x74, 0xa6, 0x38, 0x56, 0x6d, 0xf3, 0x71, 0x83, 0x3b, 0x56, 0xb7, 0x7b]
+
+def exFrame : DataFrame := ⟨6, some (some (-5)), none, some none, [1, 2, 3], some (some [cidA, cidB])⟩
+def exFrame2 : DataFrame := ⟨6, none, some (some 0), some (some 2), [], none⟩
+def exEpoch : Node := .epoch ⟨4, 39, [cidA, cidB]⟩
+def exSubset : Node := .subset ⟨3, 0, 431999, [cidB]⟩
+def exBlock : Node := .block ⟨2, 17, [⟨0, 1⟩, ⟨-1, -9223372036854775808⟩], [cidA], ⟨16, 1700000000, some (some 9223372036854775807)⟩, cidB⟩
+def exEntry : Node := .entry ⟨1, 12500, [0xaa, 0xbb], []⟩
+def exRewards : Node := .rewards ⟨5, 17, exFrame⟩
+def exTransaction : Node := .transaction ⟨0, exFrame, exFrame2, 17, some none⟩
+def exDataFrame : Node := .dataFrame exFrame
+
+example : exEpoch.WF := by decide
+example : exSubset.WF := by decide
+example : exBlock.WF := by decide
+example : exEntry.WF := by decide
+example : exRewards.WF := by decide
+example : exTransaction.WF := by decide
+example : exDataFrame.WF := by decide
+
+example : ∃ n', Fast.decode .transaction (Ref.encode exTransaction) = .ok n' ∧ obs n' = obs exTransaction :=
+  (fast_agrees exTransaction (by decide)).1
+example : ∃ e, Fast.decode .block (Ref.encode exEpoch) = .err e := kind_exclusive exEpoch (by decide) .block (by decide)
+example : ∃ e, Fast.decode .dataFrame (Ref.encode exTransaction) = .err e := kind_exclusive exTransaction (by decide) .dataFrame (by decide)
+
+/-- WF is a real restriction: a value whose int does not fit int64, a link that is not a CID, a wrong kind -/
+example : ¬ (Node.epoch ⟨4, 9223372036854775808, []⟩).WF := by decide
+example : ¬ (Node.epoch ⟨4, 1, [[0x01, 0x55, 0x00]]⟩).WF := by decide
+example : ¬ (Node.epoch ⟨3, 1, []⟩).WF := by decide
+
+/-- the model's panic outcomes are reachable (so "accepted, never a panic" says something): the unchecked assertions of
+    cbor.go on inputs outside the schema — `hash.([]byte)`, `meta.([]interface{})`, `data.([]interface{})`, `rawBytes[1:]` -/
+example : ∃ w, Fast.decode .entry (.arr [.uint 1, .uint 1, .uint 7, .arr []]) = .panic w := ⟨_, rfl⟩
+example : ∃ w, Fast.decode .block (.arr [.uint 2, .uint 1, .arr [], .arr [], .uint 5, Ref.encLink cidA]) = .panic w := ⟨_, rfl⟩
+example : ∃ w, Fast.decode .rewards (.arr [.uint 5, .uint 1, .null]) = .panic w := ⟨_, rfl⟩
+example : ∃ w, Fast.decode .epoch (.arr [.uint 4, .uint 1, .arr [.tag 42 (.bytes [])]]) = .panic w := ⟨_, rfl⟩
+/-- and the two decoders really differ outside the schema: an extra tuple entry -/
+example : (∃ n, Fast.decode .epoch (.arr [.uint 4, .uint 1, .arr [], .uint 99]) = .ok n) ∧
+    (∃ e, Ref.decode .epoch (.arr [.uint 4, .uint 1, .arr [], .uint 99]) = .error e) := ⟨⟨_, rfl⟩, ⟨_, rfl⟩⟩
+
+/-- integers: -1 and MinInt64 through the hand-written path; 2^64-1 wraps to -1 on both paths -/
+example : castI64 (castU64 (-9223372036854775808)) = -9223372036854775808 := by decide
+example : castI64 18446744073709551615 = -1 := by decide
+example : obsOptU64 (some (some (-1))) = some 18446744073709551615 := by decide
+
 end C11
